@@ -19,6 +19,9 @@ structure Cfg where
   /-- D64: the "not a valid executable operation type" error is located from the counters after `readToken`'s
   look-ahead (`p.line, p.col-len(token)`) instead of where the token starts -/
   opErrPosAfterLookahead : Bool := true
+  /-- D70: "missing fragment condition" is located two columns before the scanner's position after the token
+  (`p.line, p.col-2`) instead of where `on` was expected -/
+  fragCondPosAfterToken : Bool := true
 
 variable (cm : CM) (cfg : Cfg)
 
@@ -210,10 +213,14 @@ def readFragmentDef (fuel : Nat) (p : P) : ((List UInt8 Ã— Int Ã— Int Ã— Bool) Ã
       match skipSp cm p with
       | (none, p) => (((t, line, col, false), some ioErr), p)
       | (some _, p) =>
+        let line1 : Int := p.line
+        let col1 : Int := p.col
         match readToken cm p with
         | ((tok, ioe), p) =>
           let e0 : Option Err :=
-            if tok != kw_on then some (p.perrAt p.line ((p.col : Int) - 2)) else (if ioe then some ioErr else none)
+            if tok != kw_on then
+              some (if cfg.fragCondPosAfterToken then p.perrAt p.line ((p.col : Int) - 2) else p.perrAt line1 col1)
+            else (if ioe then some ioErr else none)
           match e0 with
           | some e => (((t, line, col, false), some e), p)
           | none =>
@@ -251,7 +258,7 @@ def mainLoop : Nat â†’ P â†’ List (List UInt8) â†’ (List (List UInt8) Ã— Option 
                  | some e => ((name :: ops, some e), p)
                  | none => mainLoop n p (name :: ops))
           else if tok == kw_fragment then
-            match readFragmentDef cm p.vfuel p with
+            match readFragmentDef cm cfg p.vfuel p with
             | ((_, some e), p) => ((ops, some e), p)
             | (((name, line, col, hasSels), none), p) =>
               (match fragGet p.frags name with
